@@ -6,8 +6,22 @@ base in the evidence files."""
 import asyncio
 import kiwipy
 
+CONFIG = {
+    'class_invariants': {'asyncio.Future': 'wf_future', 'kiwipy.Future': 'wf_future'},
+}
 
-@lib('asyncio.Future.__init__')
+
+@spec
+def wf_future(f):
+    """state model of a future: PENDING has neither result nor exception; FINISHED has not both; a stored exception is
+    an Exception (BaseException-only classes such as asyncio.CancelledError are never stored with set_exception)"""
+    return ((f._state == 'PENDING' or f._state == 'CANCELLED' or f._state == 'FINISHED')
+            and implies(f._state != 'FINISHED', f._result is None and f._exception is None)
+            and implies(f._state == 'FINISHED' and f._exception is not None, f._result is None)
+            and (f._exception is None or isinstance(f._exception, Exception)))
+
+
+@lib('asyncio.Future.__init__', also=['kiwipy.Future.__init__'])
 def future_init(self, loop=None):
     modifies(fields(self))
     raises_nothing()
@@ -17,14 +31,14 @@ def future_init(self, loop=None):
                                             attr(self, a) == old(attr(self, a)))))
 
 
-@lib('asyncio.Future.done', result_kind='bool')
+@lib('asyncio.Future.done', result_kind='bool', also=['kiwipy.Future.done'])
 def future_done(self):
     modifies()
     raises_nothing()
     ensures(result == (self._state != 'PENDING'))
 
 
-@lib('asyncio.Future.cancelled', result_kind='bool')
+@lib('asyncio.Future.cancelled', result_kind='bool', also=['kiwipy.Future.cancelled'])
 def future_cancelled(self):
     modifies()
     raises_nothing()
@@ -45,7 +59,7 @@ def future_set_exception(self, exception):
     raises(asyncio.InvalidStateError, old(self._state) != 'PENDING' and unchanged(self._state, self._exception))
 
 
-@lib('asyncio.Future.cancel', result_kind='bool')
+@lib('asyncio.Future.cancel', result_kind='bool', also=['kiwipy.Future.cancel'])
 def future_cancel(self, msg=None):
     modifies(self._state)
     raises_nothing()
@@ -70,7 +84,7 @@ def future_exception(self):
     raises(asyncio.InvalidStateError, self._state == 'PENDING')
 
 
-@lib('asyncio.Future.add_done_callback')
+@lib('asyncio.Future.add_done_callback', also=['kiwipy.Future.add_done_callback'])
 def future_add_done_callback(self, fn, context=None):
     """pending: appended to the callback list; done: scheduled with call_soon (not modelled: run later by the loop)"""
     modifies(contents(self._callbacks))
@@ -80,7 +94,7 @@ def future_add_done_callback(self, fn, context=None):
     ensures(implies(self._state != 'PENDING', seq(self._callbacks) == old(seq(self._callbacks))))
 
 
-@lib('asyncio.Future.remove_done_callback', result_kind='int')
+@lib('asyncio.Future.remove_done_callback', result_kind='int', also=['kiwipy.Future.remove_done_callback'])
 def future_remove_done_callback(self, fn):
     modifies(contents(self._callbacks))
     raises_nothing()
@@ -95,3 +109,39 @@ def await_future(fut):
     ensures(fut._state == 'FINISHED' and fut._exception is None and result is fut._result)
     raises(asyncio.CancelledError, fut._state == 'CANCELLED')
     raises(BaseException, fut._state == 'FINISHED' and fut._exception is not None and exc is fut._exception)
+
+
+# ---- kiwipy.Future = concurrent.futures.Future: same state model; its errors are Exception subclasses
+import concurrent.futures
+
+
+@lib('kiwipy.Future.set_result')
+def kfuture_set_result(self, value):
+    modifies(self._state, self._result)
+    ensures(old(self._state) == 'PENDING' and self._state == 'FINISHED' and self._result is value and result is None)
+    raises(concurrent.futures.InvalidStateError, old(self._state) != 'PENDING' and unchanged(self._state, self._result))
+
+
+@lib('kiwipy.Future.set_exception')
+def kfuture_set_exception(self, exception):
+    modifies(self._state, self._exception)
+    ensures(old(self._state) == 'PENDING' and self._state == 'FINISHED' and self._exception is exception and result is None)
+    raises(concurrent.futures.InvalidStateError, old(self._state) != 'PENDING' and unchanged(self._state, self._exception))
+
+
+@lib('kiwipy.Future.result')
+def kfuture_result(self, timeout=None):
+    """called on completed futures only (inside done-callbacks): the blocking wait of a pending future is not modelled"""
+    requires(self._state != 'PENDING')
+    modifies()
+    ensures(self._state == 'FINISHED' and self._exception is None and result is self._result)
+    raises(kiwipy.CancelledError, self._state == 'CANCELLED')
+    raises(BaseException, self._state == 'FINISHED' and self._exception is not None and exc is self._exception)
+
+
+@lib('kiwipy.Future.exception')
+def kfuture_exception(self, timeout=None):
+    requires(self._state != 'PENDING')
+    modifies()
+    ensures(self._state == 'FINISHED' and result is self._exception)
+    raises(kiwipy.CancelledError, self._state == 'CANCELLED')
